@@ -57,12 +57,12 @@ def describe_deadlock(e):
     return f"blocked: {e.blocked}\n" + "\n".join(f"--- {k}\n{v}" for k, v in list(e.stacks.items())[:5])
 
 
-def run_inproc(case, preempt_at=(), count_lines=False):
+def run_inproc(case, preempt_at=(), count_lines=False, focus=None):
     sequential = case["backend_b"] == "main_thread_only"
     program, expects = TP.build_c02_program(case["convs"], sequential=sequential)
     out = inproc.run_program(program, sparse=case["sparse"], preempt_at=preempt_at, transport=case["transport"],
                              backend_b=case["backend_b"], chunks_ab=case["chunks"], chunks_ba=case["chunks"][::-1],
-                             send_chunks=case["send_chunks"], count_lines=count_lines)
+                             send_chunks=case["send_chunks"], count_lines=count_lines, focus=focus)
     return out, expects
 
 
@@ -124,47 +124,55 @@ class Sched(Part):
                                            for k, v in case["convs"][0].items()}})
 
 
+FOCUS = {"send", "_send", "to_io", "write", "from_io", "read", "_thread_receiver", "received", "_channel_data", "_local_receive",
+         "receive", "setcallback", "new", "newchannel", "remote_exec", "load_channel", "save_Channel", "__next__", "next"}
+
+
 class Exhaustive(Part):
-    """every single line-level preemption (line x alternative thread) of small programs"""
+    """every single line-level preemption inside the send / frame / receive path x every other runnable thread x
+    delay/yield x both default thread orders, for small programs (complete in the thorough tier, strided in quick)"""
 
     name = "exhaustive"
-    budget = {"quick": 16, "thorough": 200}
+    budget = {"quick": 16, "thorough": 400}
     min_per_shard = 1
 
     def setup(self, ctx):
         D.preimport()
 
     def strategy(self, ctx):
-        return program_strategy(max_convs=2, max_items=2, max_choices=4, preempts=0)
+        return program_strategy(max_convs=2, max_items=2, max_choices=0, preempts=0)
 
     def run(self, case, ctx):
+        from vlib import explore
+
         single = case.get("single")
         if single is not None:
-            out, expects = run_inproc(_with_alt(case, single[1]), preempt_at=(single[0],))
+            out, expects = run_inproc(dict(case, sparse=explore.line_sparse(single[1])), preempt_at=(single[0],), focus=FOCUS)
             judge(out, expects)
             return dict(nontrivial=True)
-        out0, expects = run_inproc(case, count_lines=True)
-        judge(out0, expects)
-        n = out0.lines
-        if n > 12000:
-            ctx.count("programs_over_line_limit_skipped")
-            return dict(labels=["too-long"], nontrivial=False, count=0)
-        # thorough: every line; quick: an evenly spaced sample of at most 400 lines (stated in the labels)
-        stride = 1 if ctx.tier == "thorough" else max(1, n // 400)
-        runs, viol = 0, []
-        for line in range(1 + (ctx.seed % stride), n + 1, stride):
-            for alt in (0, 1):
-                runs += 1
+        runs, viol, n = 0, [], 0
+        for order in (0, 1):
+            out0, expects = run_inproc(dict(case, sparse=explore.base_sparse(order)), count_lines=True, focus=FOCUS)
+            judge(out0, expects)
+            n = out0.lines
+
+            def one(line, alt):
+                out, ex = run_inproc(dict(case, sparse=explore.line_sparse(alt)), preempt_at=(line,), focus=FOCUS)
                 try:
-                    out, ex = run_inproc(_with_alt(case, alt), preempt_at=(line,))
                     judge(out, ex)
                 except Violation as v:
-                    viol.append((v, dict(case, single=[line, alt])))
-                except Inconclusive:
-                    ctx.count("inconclusive_runs")
+                    v.sched = out.sched
+                    raise
+                return out.sched
+
+            r, found, inc = explore.single_preemptions(one, n, explore.plan_stride(n, ctx.tier, 450), ctx.seed, order=order,
+                                                       max_runs=None if ctx.tier == "thorough" else 500)
+            runs += r
+            viol += [(v, dict(case, single=list(la))) for v, la in found]
+            if inc:
+                ctx.count("inconclusive_runs", inc)
         return dict(count=runs, nontrivial_count=runs, violations=viol[:3], nontrivial=True,
-                    labels=[case["transport"], "b:" + case["backend_b"], "complete" if stride == 1 else "strided"],
-                    sample={"lines": n, "runs": runs, "stride": stride})
+                    labels=[case["transport"], "b:" + case["backend_b"]], sample={"focus_lines": n, "runs": runs})
 
 
 _pid = itertools.count(1)
